@@ -12,6 +12,12 @@ import itertools
 # ---------------------------------------------------------------- canon printing
 
 def cS(s):
+    n = len(s)
+    if n >= 4096:
+        # long exactly-periodic strings travel as r<count>*s<unit> (see ops_c15.go)
+        for p in range(1, 65):
+            if n % p == 0 and s == s[:p] * (n // p):
+                return "r%d*%s" % (n // p, cS(s[:p]))
     return "s" + ".".join(str(ord(c)) for c in s)
 
 def cI(n):
@@ -72,26 +78,27 @@ def cMeta(m):
     out += ["Other"] + cMap(m.get("Other"))
     return out + ["}"]
 
-def cFeature(f):
+def cFeature(f, root=None):
     out = ["{"]
     for k in FEAT_S:
         out += [k, cS(f.get(k, ""))]
     out += ["Attributes"] + cMap(f.get("Attributes"))
     out += ["SequenceLocation"] + cLoc(f["loc"])
     p = f.get("parent")
-    out += ["ParentSequence"] + (["nil"] if p is None else ["^", cS(p)])
+    out += ["ParentSequence"] + (["nil"] if p is None else (["^", "="] if p == root else ["^", cS(p)]))
     return out + ["}"]
 
 def canon(x):
     out = ["{", "Meta"] + cMeta(x.get("Meta", {}))
     for k in SEQ_S:
         out += [k, cS(x.get(k, ""))]
-    out += ["Features"] + cSlice(cFeature, x.get("Features"))
+    out += ["Features"] + cSlice(lambda f: cFeature(f, x.get("Sequence", "")), x.get("Features"))
     return " ".join(out + ["}"])
 
 # ---------------------------------------------------------------- random values
 
-WORDS = ["", "", "a", "CDS", "gene", "misc_feature", "pUC19", "E. coli", "lacZ alpha", "1..9", "+", "-", ".", "0",
+WORDS = ["(bases 1 to 20)", "22-OCT-2019", "ds-DNA", "DNA", "mRNA", "Direct Submission.", "Gene. 1983 Dec;26(1):101-6.",
+         "2019-10-22T10:00:00Z", "NC_000913.3", "circular", "Homo sapiens", "", "", "a", "CDS", "gene", "misc_feature", "pUC19", "E. coli", "lacZ alpha", "1..9", "+", "-", ".", "0",
          "blake3", "v1_DCD_", "join(1..2,4..5)", "x y  z", " lead", "trail ", "UPPER lower"]
 TRICKY = ["<b>&amp;</b>", "say \"hi\"", "back\\slash", "tab\there", "line\nbreak", "cr\rhere", "\x01\x02\x1f", "\x7f",
           "/slash/", "{\"k\":[1,null]}", "null", "\\u0041", "  ", "�", "﻿bom", "%3B;=,", "sep\u2028para\u2029end", "nul\x00inside"]
@@ -106,6 +113,9 @@ NUMERIC = ["1e-5", "12.30", "100.0", "+1", "007", "1E5", ".5", "5.", "-0", "1e40
 PLAIN = [False]   # when set, every generated string is printable ASCII (the writers' models' domain)
 
 def rstr(r, tricky=0.12, nonascii=0.12):
+    if r.random() < 0.004:
+        # a long text (a /translation of a few kB, a multi-line COMMENT): every string field can get one
+        return randword(r, "ACDEFGHIKLMNPQRSTVWY" if PLAIN[0] or r.random() < 0.5 else "abc de, fg.\n", r.choice([300, 4097, 9000]))
     if r.random() < 0.12:
         t = r.choice(NUMERIC)
         if not PLAIN[0] or all(32 <= ord(c) <= 126 for c in t):
@@ -148,9 +158,14 @@ def rmap(r, nilp=0.25, emptyp=0.2):
     if u < nilp + emptyp:
         return {}
     m = {}
-    for _ in range(r.randint(1, 4)):
-        k = rstr(r) if r.random() < 0.4 else r.choice(["gene", "note", "label", "product", "COMMENT", "DBLINK", "translation", "", "a", "b"])
+    cnt = r.choice([1, 2, 3, 4, 4] * 4 + [12, 40])
+    for i in range(cnt):
+        k = ("key%02d" % i) if cnt > 4 and r.random() < 0.6 else rstr(r) if r.random() < 0.4 else r.choice(["gene", "note", "label", "product", "COMMENT", "DBLINK", "translation", "", "a", "b"])
         m[k] = rstr(r)
+    if r.random() < 0.2 and m:     # several keys with one value
+        v = next(iter(m.values()))
+        for k in ["dup1", "dup2"]:
+            m[k] = v
     return m
 
 def rloc(r, n, depth, maxdepth):
@@ -178,6 +193,27 @@ def deep_loc(r, n, depth):
         l["j"] = True
         l["subs"] = [rloc(r, n, 9, 0) for _ in range(r.randint(0, 1))] + [deep_loc(r, n, depth - 1)]
     return l
+
+def big_value(r, unit, k, nfeat):
+    """a value whose sequence is `unit` repeated k times (genome-sized), with short features spread over it
+    (first letters, last letters, across unit boundaries) so that the GetSequence replies stay small"""
+    seq = unit * k
+    n = len(seq)
+    x = rsequence(r, 2)
+    x["Sequence"] = seq
+    feats = []
+    for i in range(nfeat):
+        f = rfeature(r, "", 0)
+        a = [0, n - 90, r.randint(0, n - 100), r.randint(0, n - 100)][i % 4]
+        b = a + r.randint(1, 90)
+        f["loc"] = {"start": a, "end": b, "c": i % 2 == 1, "j": False, "p5": False, "p3": False, "subs": None}
+        if i % 3 == 2:
+            f["loc"] = {"start": 0, "end": 0, "c": False, "j": True, "p5": False, "p3": False,
+                        "subs": [dict(f["loc"], c=False), {"start": n - 7, "end": n, "c": True, "j": False, "p5": False, "p3": False, "subs": None}]}
+        f["parent"] = seq
+        feats.append(f)
+    x["Features"] = feats
+    return x
 
 def rseqtext(r):
     u = r.random()
@@ -230,7 +266,9 @@ def rmeta(r):
     elif u < 0.4:
         m["References"] = []
     else:
-        m["References"] = [{k: rstr(r) for k in REF_F if r.random() < 0.6} for _ in range(r.randint(1, 3))]
+        m["References"] = [{k: rstr(r) for k in REF_F if r.random() < 0.6} for _ in range(r.choice([1, 2, 3, 3] * 4 + [9, 30]))]
+        if r.random() < 0.25:      # identical references (a reader must not merge them)
+            m["References"] = m["References"] + [dict(m["References"][0]), dict(m["References"][-1])]
     m["Other"] = rmap(r)
     return m
 
@@ -246,7 +284,10 @@ def rsequence(r, maxdepth):
     elif u < 0.22:
         x["Features"] = []
     else:
-        x["Features"] = [rfeature(r, x["Sequence"], maxdepth) for _ in range(r.choice([1, 1, 2, 3, 5]))]
+        x["Features"] = [rfeature(r, x["Sequence"], maxdepth) for _ in range(r.choice([1, 1, 2, 3, 5] * 5 + [13, 13, 40]))]
+        if r.random() < 0.15:      # identical features next to each other and far apart
+            f = x["Features"][0]
+            x["Features"] = [f, dict(f)] + x["Features"][1:] + [dict(f)]
     return x
 
 def all_fields(t):
@@ -291,9 +332,13 @@ def esc_text(s):
             out.append(c)
     return "".join(out)
 
+MAXSPAN = [None]   # set while writing genome-sized files: features stay short so that GetSequence replies stay small
+
 def gb_loc(r, n, depth=0):
     a = r.randint(1, max(n, 1)); b = r.randint(1, max(n, 1))
     a, b = min(a, b), max(a, b)
+    if MAXSPAN[0] is not None:
+        b = min(b, a + r.randint(0, MAXSPAN[0]))
     u = r.random()
     if depth < 3 and u < 0.25:
         return "complement(" + gb_loc(r, n, depth + 1) + ")"
@@ -318,16 +363,19 @@ def gb_text(r, nonascii):
         if all(33 <= ord(c) <= 126 for c in t):
             return t
     if nonascii and r.random() < 0.3:
-        return r.choice(["gène product", "中文 note", "β-galactosidase \U0001f9ec"])
+        return r.choice(["gène product", "中文 note", "β-galactosidase \U0001f9ec", "Ünal, J. & Şahin <lab>", "line\u2028separator",
+                         "e\u0301 combining a\u030a", "ﬁ ligature ①", "\U00020bb7田"])
     return r.choice(GB_TEXT)
 
-def gb_file(r, nonascii=False, wild=False, n=None, nfeat=None):
+def gb_file(r, nonascii=False, wild=False, n=None, nfeat=None, seq=None):
     """a GenBank flat file.  Plain (default): the standard layout, which genbank.Parse and Build must accept
     (such cases are `strict`).  wild: constructs at or beyond the edge of what the parser handles (CRLF, qualifiers
     without value or quotes, doubled quotes, order()/^/remote locations, BASE COUNT / CONTIG lines)"""
     if n is None:
         n = r.choice([0, 1, 9, 10, 59, 60, 61, 120, 187, 600] + ([1200] if wild else []))
-    seq = randword(r, "acgt", n)
+    if seq is None:
+        seq = randword(r, "acgt", n)
+    n = len(seq)
     name = r.choice(["pUC19", "puc19.gbk", "X", "NC_000913", "sample_1"])
     shape = r.choice(["circular", "linear", ""])
     lines = ["LOCUS       %-16s %11d bp    %-6s  %-8s %s %s" % (name, n, r.choice(["DNA", "RNA", "mRNA", "ss-DNA"]), shape,
@@ -399,15 +447,19 @@ def gb_file(r, nonascii=False, wild=False, n=None, nfeat=None):
         text += nl
     return text
 
-def gff_file(r, nonascii=False, wild=False, n=None, nfeat=None):
+def gff_file(r, nonascii=False, wild=False, n=None, nfeat=None, seq=None):
     """a GFF3 file; wild: comment lines, blank lines, %-escapes, CRLF, no ##FASTA section, an attribute without `=`"""
     if n is None:
         n = r.choice([0, 1, 69, 70, 71, 140, 150, 700])
-    seq = randword(r, "ACGT", n)
+    if seq is None:
+        seq = randword(r, "ACGT", n)
+    n = len(seq)
     name = r.choice(["U00096.3", "chr1", "ctg123", "x"])
     lines = ["##gff-version " + r.choice(["3", "3.1.26", "3 ", "3.0", "03", "3e0"]), "##sequence-region %s %d %d" % (name, r.choice([1, 1, 5]), n)]
     for _ in range(r.choice([0, 1, 2, 5, 12]) if nfeat is None else nfeat):
         a = r.randint(1, max(n, 1)); b = r.randint(1, max(n, 1))
+        if MAXSPAN[0] is not None:
+            a, b = min(a, b), min(max(a, b), min(a, b) + r.randint(0, MAXSPAN[0]))
         if wild and r.random() < 0.2:
             lines.append(r.choice(["# a comment", "", "##species https://example.org/taxon?id=511145", "#!processor x"]))
         attrs = []
@@ -415,11 +467,11 @@ def gff_file(r, nonascii=False, wild=False, n=None, nfeat=None):
             v = r.choice(["thrL", "b0001", "GO:0009088 - threonine", "leader%3B Amino acid", "1", "a,b,c", ""]
                          + [t for t in NUMERIC if all(33 <= ord(c) <= 126 for c in t)])
             if nonascii and r.random() < 0.3:
-                v = r.choice(["gène", "中", "\U0001f9ec x"])
+                v = r.choice(["gène", "中", "\U0001f9ec x", "Ünal & Şahin <lab>", "x\u2028y", "e\u0301", "\U00020bb7田"])
             if wild and r.random() < 0.3:
                 v = r.choice(["GO:0009088 %2D threonine%3B x%3Dy", "a%2Cb", "%09tab", "100%"])
             attrs.append(k + "=" + v)
-        if wild and r.random() < 0.05:
+        if wild == "flag":
             attrs.append("flag")
         lines.append("\t".join([r.choice([name, "other"]), r.choice(["feature", "GenBank", "."]),
                                 r.choice(["gene", "CDS", "exon", "region"]), str(min(a, b)), str(max(a, b)),
@@ -437,14 +489,36 @@ def gff_file(r, nonascii=False, wild=False, n=None, nfeat=None):
 
 # ---------------------------------------------------------------- cases
 
+def conv_block(r, fmt, n_conv):
+    mk = gb_file if fmt == "gbk" else gff_file
+    for i in range(n_conv):
+        if i % 10 == 9:      # valid non-ASCII text in values
+            yield ["conv", fmt, esc_text(mk(r, nonascii=True))]
+        elif i % 3 == 2:     # edge-of-format constructs: the parser may reject them (then the case is a named skip)
+            yield ["conv", fmt, esc_text(mk(r, wild=True))]
+        else:                # plain well-formed file: must be converted
+            yield ["conv", fmt, esc_text(mk(r)), "strict"]
+
+# 61-letter unit x k: 1 200 053 (> 1 MiB), 4 200 033 (> 4 MiB), 16 777 257 (> 16 MiB), 67 109 760 (> 64 MiB) letters.
+# Measured: the 67 M value takes the Lean driver 2 min to render and 3 min / 9.6 GB to judge, the harness 13 s.
+GENOME_K = [19673, 68853, 275037, 1100160]
+TIMEOUT_MS = 180000
+
 def cases(seed, tier):
     r = rng(seed, "C15")
     quick = tier == "quick"
     # the empty value, and one maximal hand-written value
     yield ["rt", canon({})]
+    # genome-sized values first (they land in the first shard; the genome-sized files are at the end)
+    gunit = randword(r, "ACGT", 61)
+    for k in (GENOME_K[:2] if quick else GENOME_K):
+        yield ["rt", canon(big_value(r, gunit, k, 6))]
     for x in collection_grid():
         yield ["rt", canon(x)]
-    n_rt = 2000 if quick else 60000
+    # (the GenBank files come before the random values, the GFF files after them: the check splits the case list
+    # into contiguous shards, and this keeps the shards of similar weight)
+    yield from conv_block(r, "gbk", 500 if quick else 15000)
+    n_rt = 1600 if quick else 60000
     for i in range(n_rt):
         maxdepth = 4 if quick else r.choice([2, 4, 4, 6])
         yield ["rt", canon(rsequence(r, maxdepth))]
@@ -483,17 +557,9 @@ def cases(seed, tier):
             x["Sequence"] = seq
             x["Features"] = [rfeature(r, seq, 4) for _ in range(40)]
             yield ["rt", canon(x)]
-    for i in range(300 if quick else 6000):
+    for i in range(900 if quick else 6000):
         yield ["dec", canon(rsequence(r, 3)), str(r.randint(0, 10 ** 6))]
-    n_conv = 500 if quick else 15000
-    for fmt, mk in (("gbk", gb_file), ("gff", gff_file)):
-        for i in range(n_conv):
-            if i % 10 == 9:      # valid non-ASCII text in values
-                yield ["conv", fmt, esc_text(mk(r, nonascii=True))]
-            elif i % 3 == 2:     # edge-of-format constructs: the parser may reject them (then the case is a named skip)
-                yield ["conv", fmt, esc_text(mk(r, wild=True))]
-            else:                # plain well-formed file: must be converted
-                yield ["conv", fmt, esc_text(mk(r)), "strict"]
+    yield from conv_block(r, "gff", 500 if quick else 15000)
     # records above bufio.Scanner's 64 KiB token limit (the JSON form holds the whole sequence in one line),
     # through every path: Marshal/Parse, Write/Read of a file, MarshalIndent/Unmarshal
     big = [70000] if quick else [70000, 100000, 100000, 131073]
@@ -505,6 +571,22 @@ def cases(seed, tier):
         yield ["rt", canon(x)]
         yield ["conv", "gbk", esc_text(gb_file(r, n=n, nfeat=4)), "strict"]
         yield ["conv", "gff", esc_text(gff_file(r, n=n, nfeat=4)), "strict"]
+    # genome-sized records (a 1 MiB or 4 MiB buffer / token limit anywhere in Write / Read / Parse must show):
+    # the sequence is a 61-letter unit repeated (canon carries it as r<count>*s<unit>), features are short
+    unit = randword(r, "ACGT", 61)
+    MAXSPAN[0] = 80
+    try:
+        for fmt, k in ([("gbk", GENOME_K[0]), ("gff", GENOME_K[0])] if quick else
+                       [(f, k) for f in ("gbk", "gff") for k in GENOME_K[:2]]):
+            if fmt == "gbk":
+                yield ["conv", "gbk", esc_text(gb_file(r, seq=unit.lower() * k, nfeat=5)), "strict"]
+            else:
+                yield ["conv", "gff", esc_text(gff_file(r, seq=unit * k, nfeat=5)), "strict"]
+    finally:
+        MAXSPAN[0] = None
+    # the `key without =` attribute that gff.Parse rejects: a stream of its own (named skip), not a share of the wild files
+    for i in range(5 if quick else 50):
+        yield ["conv", "gff", esc_text(gff_file(r, wild="flag", nfeat=2))]
     if not quick:
         # a value with many features / references / map entries (slice growth well beyond 8)
         seq = randword(r, "ACGT", 5000)
@@ -525,16 +607,20 @@ RULE = ("rt: the zero value; every combination of nil / empty / non-empty at the
         "UTF-8 bytes, and numeric-looking text in forms a number-canonicalising codec would alter (1e-5, 12.30, 100.0, +1, 007, "
         ".5, 5., -0, 1e400, NaN, Inf, ...); every string field at once through each special / non-ASCII / numeric text; "
         "a quarter as many printable-ASCII values on which the C03/C14 writer models are compared with the real "
-        "writers); map keys in UTF-8 vs UTF-16 order; one value with a 70 000-letter sequence (thorough: 100 000 and 131 073 "
+        "writers); up to 40 features, 30 references, 40 map entries, identical features / references / map values, strings of "
+        "300 to 9000 characters in any field; map keys in UTF-8 vs UTF-16 order; a 70 000-letter sequence; GENOME-SIZED values "
+        "of 1 200 053 and 4 200 033 letters (thorough: also 16 777 257 and 67 109 760, the largest record of the check; 100 000 / 131 073 "
         "letters, 1500 features, 300 references, 500 map entries, every BMP scalar value). conv: GenBank and GFF files from a "
         "small independent writer: plain well-formed files (`strict`: must be converted; sizes to 600 bp, up to 9 / 12 features; "
-        "one of 70 000 bp, thorough 131 073 bp and 400 features), every tenth with valid non-ASCII values, a third with "
+        "one of 70 000 bp and one of 1 200 053 bp per format, thorough also 4 200 033 bp, 131 073 bp and 400 features), every tenth with valid non-ASCII values, a third with "
         "edge-of-format constructs (CRLF, valueless / unquoted / doubled-quote qualifiers, order()/^/remote locations, BASE COUNT, "
         "CONTIG, comments, %-escapes, no ##FASTA) that the parser may reject (named skip). dec cases are outside the quantifier "
         "(correspondence only). non-trivial = the value has a feature or a non-empty string; distinct by case text")
 EXHAUSTIVE = {"quick": False, "thorough": False}
 TRUSTED_BASE = ["encoding/json's text layer (string escaping, UTF-8, number syntax, indentation): corresponded through a Lean JSON "
                 "reader/printer (Base/JsonRead.lean, Base/JVal.lean), not modelled",
+                "harness/cmd/extract-io/gen_c15.go also lists, for every struct reachable from poly.Sequence and every field / element / "
+                "key type, the json / text (un)marshaler interfaces it implements (theorem no_custom_codecs: none)",
                 "harness/cmd/extract-io/gen_c15.go: the JSON member name of each field is observed from json.Marshal/Unmarshal of "
                 "the compiled types, kinds from reflect",
                 "canonical value syntax (ops_c15.go, reflect-driven) used to move poly.Sequence values between Go and Lean",
@@ -555,7 +641,13 @@ ASSUMPTIONS = ["NAMED EXCLUSION invalid-utf8: 'non-ASCII text' in the quantifier
                "clause rests on the general theorem convert_same plus byte comparison of the real writers' outputs on every case",
                "json.Unmarshal's case-insensitive member matching and duplicate-member behaviour are not modelled (no document "
                "written by json.Marshal for these types needs them: tags_nodup)"]
-PARTIAL = []
+PARTIAL = ["third clause outside printable ASCII: convert_same_gbk / convert_same_gff (and the _pipe variants) are theorems about the "
+           "C03 / C14 models of genbank.Build / gff.Build applied to the fields those writers read; these models are claimed "
+           "(and corresponded) on printable-ASCII values without integer overflow only. For values with other text the clause is "
+           "proved for every writer that respects value equality (convert_same); that the two real writers do is checked by byte "
+           "comparison of their outputs before and after the round trip on every case, not proved",
+           "the JSON text layer (escaping, UTF-8, number syntax, indentation) is encoding/json's: every theorem is about JSON values; "
+           "the step from a value to its text and back is corresponded through a Lean JSON reader / printer on every case, not proved"]
 TECHNIQUE = ("Lean 4 proof over a model of json.Marshal / json.Unmarshal / polyjson.Parse / AddFeature / GetSequence whose struct "
              "table (fields, JSON member names, kinds) is regenerated from the compiled types; decide on the table, structural "
              "induction over values and location trees; conversion clause instantiated for the C03 / C14 writer models through "
